@@ -668,3 +668,116 @@ def worker_alloc(case, rp):
                                         found_by='small-scope native enumeration (%d cases)' % n)
     return dict(confirmed=False, detail='model did not reproduce; %d small '
                 'occupancy/request cases hold natively' % n)
+
+
+# ------------------------------------------------------------------------------
+# C01 / C02: Continuous._find_resources
+#
+def mk_continuous(rp, nodes=None):
+    from radical.pilot.agent.scheduler.continuous import Continuous
+    c = object.__new__(Continuous)
+    c._log, c._prof = Stub(), Stub()
+    c.nodes = nodes or []
+    return c
+
+
+def check_find_resources(rp, node, n_slots, cps, gps, lfs, mem, partial):
+    c = mk_continuous(rp)
+    n0 = copy.deepcopy(node)
+    try:
+        res = c._find_resources(node=node, n_slots=n_slots, cores_per_slot=cps,
+                                gpus_per_slot=gps, lfs_per_slot=lfs,
+                                mem_per_slot=mem, partial=partial)
+    except ValueError:
+        if gps >= 1 and int(gps) != gps:
+            return []
+        return ['ValueError for a legal request']
+    except Exception as e:
+        return ['raised %r' % e]
+    probs = []
+    if node != n0: probs.append('the node was modified')
+    if res is None:
+        if partial: probs.append('None although partial results are allowed')
+        return probs
+    if len(res) > n_slots: probs.append('%d slots for %d requested' % (len(res), n_slots))
+    if not partial and len(res) != n_slots:
+        probs.append('%d slots returned, %d requested, not partial' % (len(res), n_slots))
+    seen_c, seen_g, share = set(), set(), dict()
+    for s in res:
+        if s['node_index'] != node['index'] or s['node_name'] != node['name']:
+            probs.append('slot names another node')
+        if len(s['cores']) != cps:
+            probs.append('slot has %d cores, %d requested' % (len(s['cores']), cps))
+        for ro in s['cores']:
+            i = ro['index']
+            if not (0 <= i < len(node['cores'])) or node['cores'][i] != 0.0:
+                probs.append('core %d is not free (%r)' % (i, node['cores'][i] if 0 <= i < len(node['cores']) else None))
+            if i in seen_c: probs.append('core %d handed out twice' % i)
+            seen_c.add(i)
+        if gps >= 1:
+            if len(s['gpus']) != int(gps):
+                probs.append('slot has %d gpus, %d requested' % (len(s['gpus']), gps))
+            for ro in s['gpus']:
+                i = ro['index']
+                if node['gpus'][i] != 0.0: probs.append('gpu %d is not free' % i)
+                if i in seen_g: probs.append('gpu %d handed out twice' % i)
+                seen_g.add(i)
+        elif gps > 0:
+            if len(s['gpus']) != 1 or s['gpus'][0]['occupation'] != gps:
+                probs.append('slot gpu share is %r, requested %s' % (s['gpus'], gps))
+            else:
+                i = s['gpus'][0]['index']
+                if node['gpus'][i] is None: probs.append('share on blocked gpu %d' % i)
+                share[i] = share.get(i, 0.0) + gps
+        elif s['gpus']:
+            probs.append('gpus handed out although none requested')
+        if s['lfs'] != lfs or s['mem'] != mem:
+            probs.append('slot lfs/mem %s/%s, requested %s/%s' % (s['lfs'], s['mem'], lfs, mem))
+    for i, sh in share.items():
+        if (node['gpus'][i] or 0.0) + sh > 1.0 + 1e-9:
+            probs.append('shares on gpu %d sum to %.2f (occupied %.2f before)'
+                         % (i, sh, node['gpus'][i] or 0.0))
+    if sum(s['lfs'] for s in res) > node['lfs']:
+        probs.append('slots hold %d lfs, node has %d' % (sum(s['lfs'] for s in res), node['lfs']))
+    if sum(s['mem'] for s in res) > node['mem']:
+        probs.append('slots hold %d mem, node has %d' % (sum(s['mem'] for s in res), node['mem']))
+    return probs
+
+
+@builder('agent/scheduler/continuous.py:Continuous._find_resources')
+def find_resources(case, rp):
+    import itertools
+    m = case.get('model') or {}
+    node = m.get('node')
+    if isinstance(node, dict) and all(not isinstance(c, str) for c in node.get('cores', []) + node.get('gpus', [])):
+        args = (node, m.get('n_slots', 1), m.get('cores_per_slot', 1),
+                m.get('gpus_per_slot', 0.0), m.get('lfs_per_slot', 0),
+                m.get('mem_per_slot', 0), bool(m.get('partial')))
+        if node.get('cores'):
+            probs = check_find_resources(rp, *copy.deepcopy(args))
+            if probs:
+                return dict(confirmed=True, detail='; '.join(probs[:3]),
+                            input=dict(zip(['node', 'n_slots', 'cores_per_slot',
+                                  'gpus_per_slot', 'lfs_per_slot', 'mem_per_slot', 'partial'], args)))
+    n = 0
+    cells = (0.0, 1.0, None)
+    for nc in (1, 2, 3):
+        for cores in itertools.product(cells, repeat=nc):
+            for gpus in ((), (0.0,), (None, 0.0), (0.5, 0.0), (0.0, 0.0)):
+                for n_slots in (1, 2, 3):
+                    for cps in (1, 2):
+                        for gps in (0.0, 0.25, 0.6, 1.0, 2.0):
+                            if gps >= 1 and not gpus: continue
+                            for lfs, nlfs in ((0, 0), (80, 100)):
+                                n += 1
+                                node = {'index': 3, 'name': 'n3', 'cores': list(cores),
+                                        'gpus': list(gpus), 'lfs': nlfs, 'mem': nlfs}
+                                args = (node, n_slots, cps, gps, lfs, lfs, True)
+                                probs = check_find_resources(rp, *copy.deepcopy(args))
+                                if probs:
+                                    return dict(confirmed=True, detail='; '.join(probs[:3]),
+                                        input=dict(zip(['node', 'n_slots', 'cores_per_slot',
+                                        'gpus_per_slot', 'lfs_per_slot', 'mem_per_slot', 'partial'], args)),
+                                        found_by='small-scope native enumeration (%d cases)' % n)
+    return dict(confirmed=False, detail='model did not reproduce; %d small node / '
+                'request cases hold natively' % n)
